@@ -98,7 +98,11 @@ open RustStr Witverif.Text.CheckMode
 def upToDate (fs : FS) (files : List (Name × Bytes)) : Bool :=
   files.all fun f => fs.read f.1 == some f.2
 
-/-- `\r\n ↦ \n`, and a final line break made explicit -/
+/-- `\r\n ↦ \n`, and a final line break made explicit.  Here the spec deliberately FOLLOWS THE CODE:
+`str::lines` yields no trailing empty line, so `"a"` and `"a\n"` have equal lines and the CLI reports
+a missing/extra final line break as "differs only in line endings"; the property's "line-ending-only
+difference" is read to include the final line break. (A blank line more or less - `"a\n"` vs
+`"a\n\n"` - is not a line-ending-only difference in either.) -/
 def normEol (s : List Char) : List Char :=
   let u := SourceSpec.crlfToLf s
   if u.isEmpty || u.getLast? == some '\n' then u else u ++ ['\n']
